@@ -16,9 +16,11 @@ Statements:
 * `wcsfc_model` (full): every string, every `dmax`: no table index out of bounds; EOK ⇒ dest = `fcPure src`, `*lenp` its length,
   `< dmax`, every cell a code point; no write behind `dest + dmax` whenever the result fits at all.
   `wcsfc_overrun_witness`: it does write behind the buffer when it does not (`ßß` into 3 cells).
+* `wcsfc_return_codes` (full): EOK, ESZEROL, ESLEMAX or ESNOSPC, never the documented negative code of `towfc_s`.
 * `wcsfc_succeeds` (full): 4 cells more than the result ⇒ EOK; sharp: `wcsfc_exact_fit_witness`.
 * `wcsfc_fold_then_decompose_partial`: per cell, `wcsfc_s` = `towfc_s` followed by the canonical decomposition of each cell, except
-  the five code points above and the final sigma; `wcsfc_fold_then_decompose_witness`: each of those really differs.
+  the five code points above and the final sigma (`wcsfc_fold_then_decompose_string_partial`: whole strings);
+  `wcsfc_fold_then_decompose_witness`: each of those really differs.
 * `wcsfc_announced_partial`: text of `plain` cells (nothing decomposes, no sigma, none of the five): dest = concatenation of
   `towfc_s`, length = Σ max 1 (iswfc c), EOK with Σ + 4 ≤ dmax; `wcsfc_plain_tight`: `plain` is exactly the per-cell condition;
   witnesses for the unrestricted claims: `wcsfc_announced_witness_decomposes`, `_sigma`, `_sum`.
@@ -54,6 +56,19 @@ theorem wcsfc_overrun_witness :
     (fcPure [0xdf, 0xdf]).length = 4 ∧ (∀ c ∈ [0xdf, 0xdf], c ≠ 0) := by
   decide +kernel
 
+/-- the return values, every input: EOK, ESZEROL, ESLEMAX or ESNOSPC — never the negative code of `towfc_s` (−ESNOTFND "when the
+internal implementations of iswfc() and towfc_s() are mismatched" in the documentation): where `iswfc` announces more than one cell,
+`towfc_s` finds the code point in `tbl2` / `tbl3` -/
+theorem wcsfc_return_codes (dmax : Nat) (src : List Nat) (h0 : ∀ c ∈ src, c ≠ 0) :
+    (wcsfcS current dmax src).ret = 0 ∨ (wcsfcS current dmax src).ret = ESZEROL ∨ (wcsfcS current dmax src).ret = ESLEMAX ∨
+    (wcsfcS current dmax src).ret = ESNOSPC :=
+  wcsfcS_ret dmax src h0
+
+example : (wcsfcS current 0 [0x41]).ret = ESZEROL ∧ (wcsfcS current 2000 [0x41]).ret = ESLEMAX ∧
+    (wcsfcS current 16 [0x41, 0x110000]).ret = ESLEMAX ∧ (wcsfcS current 4 [0xdf, 0xdf]).ret = ESNOSPC ∧
+    (wcsfcS current 16 [0xdf, 0xdf]).ret = 0 := by
+  decide +kernel
+
 /-- 4 cells more than the result (3 besides the terminator) and `wcsfc_s` succeeds, with exactly `fcPure src` -/
 theorem wcsfc_succeeds (dmax : Nat) (src : List Nat) (hs : ∀ c ∈ src, c ≠ 0 ∧ c ≤ 0x10FFFF) (hmax : dmax ≤ RSIZE_MAX_WSTR)
     (hroom : (fcPure src).length + 4 ≤ dmax) :
@@ -83,6 +98,17 @@ theorem wcsfc_fold_then_decompose_partial (cp nx : Nat) (hs : fcSpecial cp = fal
 example : fcSpecial 0x1f82 = false ∧ ¬(0x1f82 = 0x3a3 ∧ iswspace 0 = true) ∧
     fcCell 0x1f82 0 = [0x3b1, 0x313, 0x300, 0x3b9] ∧ (towfcCore 0x1f82).2 = [0x1f02, 0x3b9] ∧
     fcSpecial 0x3a3 = false ∧ ¬(0x3a3 = 0x3a3 ∧ iswspace 0x41 = true) ∧ fcCell 0x3a3 0x41 = [0x3c3] := by
+  decide +kernel
+
+/-- the same for a whole string without the five code points and without a capital sigma directly in front of a space: dest =
+the decomposition pass of wcsnorm_s (`flatMap decompose1`, `C17.nfd_model`) over the concatenated `towfc_s` results -/
+theorem wcsfc_fold_then_decompose_string_partial (src : List Nat) (hs : ∀ c ∈ src, fcSpecial c = false)
+    (h3 : sigmaFinal src = false) : fcPure src = (src.flatMap fun c => (towfcCore c).2).flatMap decompose1 :=
+  fcPure_fold_decompose hs h3
+
+example : (∀ c ∈ [0x3a3, 0x41, 0x1f82, 0xC9, 0x3a3], fcSpecial c = false) ∧ sigmaFinal [0x3a3, 0x41, 0x1f82, 0xC9, 0x3a3] = false ∧
+    sigmaFinal [0x41, 0x3a3, 0x20] = true ∧
+    fcPure [0x3a3, 0x41, 0x1f82, 0xC9, 0x3a3] = [0x3c3, 0x61, 0x3b1, 0x313, 0x300, 0x3b9, 0x65, 0x301, 0x3c3] := by
   decide +kernel
 
 /-- the exception list is tight: each of the five code points, whatever follows, and the sigma in front of ANY space differ -/
@@ -148,9 +174,11 @@ theorem wcsfc_announced_witness_sum :
 
 #print axioms wcsfc_model
 #print axioms wcsfc_overrun_witness
+#print axioms wcsfc_return_codes
 #print axioms wcsfc_succeeds
 #print axioms wcsfc_exact_fit_witness
 #print axioms wcsfc_fold_then_decompose_partial
+#print axioms wcsfc_fold_then_decompose_string_partial
 #print axioms wcsfc_fold_then_decompose_witness
 #print axioms wcsfc_plain_cell
 #print axioms wcsfc_plain_tight
